@@ -415,6 +415,10 @@ class Ctx:
     def finish(self):
         pid = self.pid
         wall = time.time() - self.t0
+        from . import eleccommon
+        if eleccommon.FALLBACKS["count"]:
+            # steps of the implementation that obtained their propagator without numpy.linalg.eigh; decomposition done here
+            self.count("eigh-decompositions-by-harness-fallback", eleccommon.FALLBACKS["count"])
         # runs against a scratch tree (VERIF_REPO set: seeded-change trials) must not overwrite the evidence of /repo
         evdir = os.path.join(VERIF, "evidence") if REPO == "/repo" else os.path.join(VERIF, "replays", "scratch-evidence")
         os.makedirs(evdir, exist_ok=True)
